@@ -17,6 +17,8 @@ enum COp {
     Insert { au: usize, key: Vec<u8>, hash: [u8; 32], len: u64, now: u64 },
     Delete { au: usize, key: Vec<u8>, now: u64 },
     Flush,
+    /// a read that goes through `snapshot()` / `snapshot_owned()`: 0 = list_namespaces, 1 = list_authors, 2 = get_many, 3 = content_hashes
+    Snap(u8),
 }
 
 fn gen_op(rng: &mut Rng, w: &World, stats: &mut Stats) -> COp {
@@ -30,6 +32,7 @@ fn gen_op(rng: &mut Rng, w: &World, stats: &mut Stats) -> COp {
         0..=1 => { stats.inc("op_insert"); COp::Insert { au, key, hash, len, now: ts } }
         2..=3 => { stats.inc("op_delete"); COp::Delete { au, key, now: ts } }
         4 => { stats.inc("op_flush"); COp::Flush }
+        5..=6 => { stats.inc("op_snapshot_read"); COp::Snap(rng.below(4) as u8) }
         _ => {
             stats.inc("op_remote");
             if rng.chance(1, 4) { COp::Remote(w.signed(au, &key, empty_hash(), 0, ts)) } else { COp::Remote(w.signed(au, &key, hash, len, ts)) }
@@ -43,6 +46,7 @@ fn ccop(w: &World, o: &COp) -> String {
         COp::Insert { au, key, hash, len, now } => format!("(CInsert {} {} {} {} {})", n256(w.authors[*au].id().as_bytes()), cbytes(key), n256(hash), len, now),
         COp::Delete { au, key, now } => format!("(CDelete {} {} {})", n256(w.authors[*au].id().as_bytes()), cbytes(key), now),
         COp::Flush => "CFlush".into(),
+        COp::Snap(_) => "CSnap".into(),
     }
 }
 fn jcop(o: &COp) -> String {
@@ -51,6 +55,7 @@ fn jcop(o: &COp) -> String {
         COp::Insert { au, key, hash, len, now } => format!("\"insert author#{} key={} hash={} len={} now={}\"", au, hex::encode(key), hex::encode(&hash[..3]), len, now),
         COp::Delete { au, key, now } => format!("\"delete_prefix author#{} key={} now={}\"", au, hex::encode(key), now),
         COp::Flush => "\"flush\"".into(),
+        COp::Snap(k) => format!("\"{}\"", ["list_namespaces", "list_authors", "get_many", "content_hashes"][*k as usize]),
     }
 }
 
@@ -65,6 +70,10 @@ fn fresh(w: &World, dir: &Path) -> anyhow::Result<Store> {
 fn apply(rt: &tokio::runtime::Runtime, store: &mut Store, w: &World, o: &COp) -> anyhow::Result<()> {
     match o {
         COp::Flush => store.flush()?,
+        COp::Snap(0) => { let _ = store.list_namespaces()?.count(); }
+        COp::Snap(1) => { let _ = store.list_authors()?.count(); }
+        COp::Snap(2) => { let _ = store.get_many(w.ns_id(), Query::all())?.count(); }
+        COp::Snap(_) => { let _ = store.content_hashes()?.count(); }
         _ => {
             // the replica info is loaded without touching the store's transaction state twice:
             // open_replica calls tables() once; that call is part of the operation
@@ -73,7 +82,7 @@ fn apply(rt: &tokio::runtime::Runtime, store: &mut Store, w: &World, o: &COp) ->
                 COp::Remote(e) => { verif::set_clock(T0 + 10); let _ = rt.block_on(replica.insert_remote_entry(e.clone(), [3u8; 32], ContentStatus::Missing)); }
                 COp::Insert { au, key, hash, len, now } => { verif::set_clock(*now); let _ = rt.block_on(replica.insert(key, &w.authors[*au], iroh_blobs::Hash::from_bytes(*hash), *len)); }
                 COp::Delete { au, key, now } => { verif::set_clock(*now); let _ = rt.block_on(replica.delete_prefix(key, &w.authors[*au])); }
-                COp::Flush => unreachable!(),
+                COp::Flush | COp::Snap(_) => unreachable!(),
             }
             drop(replica);
             store.close_replica(w.ns_id());
